@@ -125,6 +125,61 @@ pub fn dispatch(op: &str, a: &[&str]) -> Option<Ans> {
                 so_p(so::crypto_pwhash_opslimit_interactive(), so::crypto_pwhash_memlimit_interactive())) };
             (format!("ok {}", got), format!("ok {}", want))
         }
+        // pwhash_hash_preset <interactive|moderate|sensitive> <pwd>: the random-salt wrappers `PwHash::hash_<preset>` really run; the
+        // result must be libsodium's crypto_pwhash at ITS constants for that preset with the salt the object reports
+        "pwhash_hash_preset" => {
+            let pwd = unhex(a[1]);
+            let (h, ops, mem): (Result<VecPwHash, _>, usize, usize) = unsafe { match a[0] {
+                "interactive" => (PwHash::hash_interactive(&pwd), so::crypto_pwhash_opslimit_interactive(), so::crypto_pwhash_memlimit_interactive()),
+                "moderate" => (PwHash::hash_moderate(&pwd), so::crypto_pwhash_opslimit_moderate(), so::crypto_pwhash_memlimit_moderate()),
+                _ => (PwHash::hash_sensitive(&pwd), so::crypto_pwhash_opslimit_sensitive(), so::crypto_pwhash_memlimit_sensitive()),
+            } };
+            match h {
+                Err(_) => ("err".into(), "ok".into()),
+                Ok(h) => {
+                    let s = h.to_string();
+                    let (hash, salt, _cfg) = h.into_parts();
+                    if salt.len() != 16 || hash.len() != 32 { return Some((format!("mismatch preset lengths salt {} hash {}", salt.len(), hash.len()), "ok".into())); }
+                    let mut sh = vec![0u8; 32];
+                    let r = unsafe { so::crypto_pwhash(sh.as_mut_ptr(), 32, pwd.as_ptr() as *const _, pwd.len() as u64, salt.as_ptr(), ops as u64, mem, 2) };
+                    let params = s.split('$').nth(3).unwrap_or("?").to_string();
+                    (format!("ok {} {}", params, if hash == sh { "hash=libsodium" } else { "hash!=libsodium" }),
+                     if r == 0 { format!("ok m={},t={},p=1 hash=libsodium", mem / 1024, ops) } else { "n/a".into() })
+                }
+            }
+        }
+        // pwhash_rehash_parsed <string as hex> <opslimit> <pwd>: a Config carried over from a PARSED string (the only way to an
+        // Argon2i Config), its opslimit changed, then `PwHash::hash` with a random salt.  What the new object's string says must be
+        // what was computed: dryoc and libsodium verify it, and the hash equals crypto_pwhash at the encoded parameters.
+        "pwhash_rehash_parsed" => {
+            let sb = unhex(a[0]);
+            let ops: u64 = a[1].parse().unwrap();
+            let pwd = unhex(a[2]);
+            let s = match String::from_utf8(sb) { Ok(s) => s, Err(_) => return Some(("n/a".into(), "n/a".into())) };
+            let p: Result<VecPwHash, _> = PwHash::from_string(&s);
+            let p = match p { Ok(p) => p, Err(_) => return Some(("err parse".into(), "n/a".into())) };
+            let (_h, _s, cfg) = p.into_parts();
+            let argon2i = s.starts_with("$argon2i$");
+            let h: Result<VecPwHash, _> = PwHash::hash(&pwd, cfg.with_opslimit(ops));
+            match h {
+                Err(_) => ("err".into(), "n/a".into()),
+                Ok(h) => {
+                    let ns = h.to_string();
+                    let own = h.verify(&pwd);
+                    let cl = crypto_pwhash_str_verify(&ns, &pwd);
+                    let back: Result<VecPwHash, _> = PwHash::from_string(&ns);
+                    let bv = match back { Ok(b) => res(&b.verify(&pwd)).to_string(), Err(_) => "parse-failed".into() };
+                    let sv = match cstr128(&ns) {
+                        Some(c) => rc(unsafe { so::crypto_pwhash_str_verify(c.as_ptr(), pwd.as_ptr() as *const _, pwd.len() as u64) }).to_string(),
+                        None => "n/a".into(),
+                    };
+                    let t_ok = ns.contains(&format!(",t={},", ops));
+                    let alg_ok = ns.starts_with(if argon2i { "$argon2i$" } else { "$argon2id$" });
+                    (format!("ok own={} classic={} reparsed={} sodium={} t-recorded={} alg-kept={}", res(&own), res(&cl), bv, sv, t_ok, alg_ok),
+                     "ok own=ok classic=ok reparsed=ok sodium=ok t-recorded=true alg-kept=true".into())
+                }
+            }
+        }
         // pwhash_defaults <pwd> <wrong>: hash_with_defaults / hash_interactive (64 MiB, t = 2) and from_string_with_defaults
         "pwhash_defaults" => {
             let (pwd, wrong) = (unhex(a[0]), unhex(a[1]));
@@ -242,14 +297,38 @@ pub fn dispatch(op: &str, a: &[&str]) -> Option<Ans> {
             let ov = match &p { Ok(p) => format!("{}{}", res(&p.verify(&pwd)), res(&p.verify(&wrong))), Err(_) => "parse-failed".to_string() };
             (format!("verify={}{} objverify={} reencode={} rehash={:?}{:?}{:?}", res(&r1), res(&r2), ov, re, nr.ok(), nr2.ok(), nr3.ok()), "verify=okerr objverify=okerr reencode=same rehash=Some(false)Some(true)Some(true)".into())
         }
+        // pwhash_keypair_preset <interactive|moderate|sensitive|default> <pwd> <salt16>: the key pair derived under a cost PRESET is
+        // libsodium's crypto_pwhash(32 bytes) at ITS constants for that preset → scalarmult_base
+        "pwhash_keypair_preset" => {
+            let (pwd, salt) = (unhex(a[1]), unhex(a[2]));
+            let (cfg, ops, mem) = unsafe { match a[0] {
+                "moderate" => (Config::moderate(), so::crypto_pwhash_opslimit_moderate(), so::crypto_pwhash_memlimit_moderate()),
+                "sensitive" => (Config::sensitive(), so::crypto_pwhash_opslimit_sensitive(), so::crypto_pwhash_memlimit_sensitive()),
+                "default" => (Config::default(), so::crypto_pwhash_opslimit_interactive(), so::crypto_pwhash_memlimit_interactive()),
+                _ => (Config::interactive(), so::crypto_pwhash_opslimit_interactive(), so::crypto_pwhash_memlimit_interactive()),
+            } };
+            let kp: Result<dryoc::keypair::StackKeyPair, _> = VecPwHash::derive_keypair(&pwd, salt.clone(), cfg);
+            let mut sk = [0u8; 32];
+            let sr = unsafe { so::crypto_pwhash(sk.as_mut_ptr(), 32, pwd.as_ptr() as *const _, pwd.len() as u64, salt.as_ptr(), ops as u64, mem, 2) };
+            let mut pk = [0u8; 32];
+            unsafe { so::crypto_scalarmult_base(pk.as_mut_ptr(), sk.as_ptr()) };
+            (match kp { Ok(k) => format!("ok {} {}", hex(k.public_key.as_ref()), hex(k.secret_key.as_ref())), Err(_) => "err".into() },
+             if sr == 0 && salt.len() == 16 { format!("ok {} {}", hex(&pk), hex(&sk)) } else { "n/a".into() })
+        }
         // pwhash_keypair <opslimit> <memlimit> <pwd> <salt>
         "pwhash_keypair" => {
             let ops: u64 = a[0].parse().unwrap();
             let mem: usize = a[1].parse().unwrap();
             let (pwd, salt) = (unhex(a[2]), unhex(a[3]));
             // optional 5th argument: a non-default hash_length in the Config (must not influence the derived key)
-            let mut cfg = Config::interactive().with_opslimit(ops).with_memlimit(mem);
-            if a.len() > 4 { cfg = cfg.with_hash_length(a[4].parse().unwrap()).with_salt_length(salt.len()); }
+            // the builder calls are applied in an order that depends on the arguments, starting from a preset that depends on them too:
+            // the derived key must depend on neither
+            let start = [Config::interactive(), Config::moderate(), Config::sensitive(), Config::default()][(pwd.len() + salt.first().copied().unwrap_or(0) as usize) % 4].clone();
+            let mut cfg = if (ops as usize + mem / 1024 + pwd.len()) % 2 == 0 { start.with_opslimit(ops).with_memlimit(mem) } else { start.with_memlimit(mem).with_opslimit(ops) };
+            if a.len() > 4 {
+                let hl: usize = a[4].parse().unwrap();
+                cfg = if hl % 2 == 0 { cfg.with_hash_length(hl).with_salt_length(salt.len()).with_opslimit(ops) } else { cfg.with_salt_length(salt.len()).with_hash_length(hl).with_memlimit(mem) };
+            }
             let kp: Result<dryoc::keypair::StackKeyPair, _> = VecPwHash::derive_keypair(&pwd, salt.clone(), cfg);
             let sa = if salt.len() == 16 {
                 let mut sk = [0u8; 32];
